@@ -63,6 +63,7 @@ mutual
     | test (x : Str) (neg : Bool) (s : Str) -- `[ "$x" = s ]` / `[ "$x" != s ]`
     | assign (x : Str) (w : Word)           -- `x=word`
     | assignSub (x : Str) (p : Prog)        -- `x=$(prog)`
+    | echoSub (w1 : Word) (p : Prog) (w2 : Word)  -- `echo "w1$(prog)w2"`: a substitution in an argument
     | call (f : Str)                        -- `f` (function if defined, else command not found)
     | block (p : Prog)                      -- `{ p; }`
     | subsh (p : Prog)                      -- `( p )`
@@ -344,6 +345,14 @@ def run : Nat → Task → St → Option St
         some { s with lastExpandExit := { r2.exit with exiting := false },
                       exit := { r2.exit with exiting := false },
                       vars := (x, stripNl r2.out) :: s.vars }
+    | .echoSub w1 p w2 =>
+      -- `r.fields(args...)` runs the substitution (→ `lastExpandExit`), then the `echo` builtin
+      match foldStmts (fun st => run n (.stmt st)) p (subshellOf s []) with
+      | none => none
+      | some r2 =>
+        some { s with lastExpandExit := { r2.exit with exiting := false }, exit := {},
+                      out := s.out ++ (expandWord s.vars s.lastExit.code w1 ++ (stripNl r2.out ++
+                        (expandWord s.vars s.lastExit.code w2 ++ [10]))) }
     | .call f =>
       match lookupFn s.funcs f with
       | some bodyS =>
